@@ -543,6 +543,22 @@ class Eval(object):
             outl = [T.sel(T.slice_(mk, i, 1), T.slice_(src, i * sw, dw), T.slice_(pas, i * dw, dw)) for i in range(n)]
             tot = ty.bits
             E[iid] = T.cat(*(outl + [T.const(tot - n * dw, 0)]))
+        elif re.match(r'^llvm\.x86\.avx512\.(max|min)\.p[sd]\.512$', name):
+            if T.const_val(self.val(ops[2])) != 4:
+                raise Unsupported('%s with explicit rounding/SAE' % name)
+            nm = 'x86.f' + name.split('.')[3]
+            E[iid] = lanewise(lambda x, y: T.raw_op(nm, T.width(x), x, y), ops[0], ops[1])
+        elif re.match(r'^llvm\.x86\.avx512\.mask\.rndscale\.p[sd]\.(128|256|512)$', name):
+            # VRNDSCALE with scale 0 (imm[7:4] = 0) is ROUNDPS/PD with imm[3:0]; write-masked
+            imm = T.const_val(self.val(ops[1]))
+            if len(ops) > 4 and T.const_val(self.val(ops[4])) != 4:
+                raise Unsupported('%s with SAE' % name)
+            if imm >> 4:
+                raise Unsupported('rndscale with a non-zero scale')
+            ew = 32 if '.ps.' in name else 64
+            src, pas, mk = self.val(ops[0]), self.val(ops[2]), self.val(ops[3])
+            n = T.width(src) // ew
+            E[iid] = T.cat(*[T.sel(T.slice_(mk, i, 1), T.raw_op('x86.round', ew, T.slice_(src, i * ew, ew), attrs=(imm,)), T.slice_(pas, i * ew, ew)) for i in range(n)])
         elif base in ('llvm.ctpop', 'llvm.bitreverse'):
             E[iid] = lanewise(lambda x: T.raw_op(base[5:], T.width(x), x), ops[0])
         elif base in ('llvm.ctlz', 'llvm.cttz'):
